@@ -37,7 +37,7 @@ MUTATOR_NAMES = ["add", "update", "clear", "pop", "popitem", "remove", "discard"
                  "replace_rdataset", "delete_rdataset", "union_update", "intersection_update", "difference_update", "symmetric_difference_update",
                  "update_ttl", "__ior__", "__iand__", "__isub__", "__ixor__", "__iadd__", "sort", "reverse", "delete_node", "put_rdataset", "find_rdataset",
                  "get_rdataset", "delete", "replace", "delete_exact", "update_serial", "add_unicode", "make_immutable", "make_mutable", "_put_rdataset", "_delete_name",
-                 "_delete_rdataset", "delete_key", "insert_key"]
+                 "_delete_rdataset", "delete_key", "insert_key", "insert_element"]
 
 
 def shards(tier, seed):
@@ -139,6 +139,16 @@ def attack_snapshot(ctx, txn, origin, btree, pool, tag, case):
             rds = dns.rdataset.from_rdata(5, rd)
             argsets = [(), (rd,), (rds,), (some_name,), (some_name, rds), (some_name, rd), (0,), (some_name, rd.rdtype), (rd.rdclass, rd.rdtype), (some_name, 5, rd), (0, rd), (rds, rds), (1,), ("x",),
                        (rd.rdclass, rd.rdtype, 0, True), (some_name, node if some_name else None)]
+            if hasattr(obj, "get_element"):
+                # B-tree maps and sets: the element object that is stored (what delete_exact / insert_element take)
+                try:
+                    elem = obj.get_element(some_name)
+                    if elem is None:
+                        elem = next(iter(obj), None) and obj.get_element(next(iter(obj)))
+                    if elem is not None:
+                        argsets.append((elem,))
+                except Exception:
+                    pass
             for args in argsets:
                 ctx.count("mon.mutator_attack")
                 try:
